@@ -71,11 +71,17 @@ def _mk_method(name, site, ret=None):
         def m(self):
             rt.cb(site)
     else:
-        hint, nohint_kind = ret
+        hint, nohint_kind, same_object = ret
+        store = []
 
         def m(self):
             c = rt.CUR.counts.get(site, 0)
             v = fb_value(hint, c, nohint_kind)
+            if same_object and isinstance(v, (list, tuple)):
+                # a getter that returns one list object, mutated in place (`return self.positions`)
+                store[:] = list(v)
+                rt.cb(site, list(store))
+                return store
             rt.cb(site, v)
             return v
     m.__name__ = name
@@ -111,11 +117,18 @@ def build_robot(spec):
         base_body = {}
         for r in c.get("resets", ()):
             (base_body if r.get("inherited") else body)[r["attr"]] = will_reset_to(r["default"])
+            if "base_default" in r and not r.get("inherited"):
+                # the subclass re-declares a marker it inherits, with another default: the subclass's one counts
+                base_body[r["attr"]] = will_reset_to(r["base_default"])
             tracked.append((cname, r["attr"]))
         for s in c.get("sentinels", ()):
+            if "shadowed_marker_default" in s:
+                # an inherited marker shadowed by a plain attribute of the subclass: no longer a reset attribute
+                base_body[s["attr"]] = will_reset_to(s["shadowed_marker_default"])
+                body[s["attr"]] = s["value"]
             tracked.append((cname, s["attr"]))
         for fb in c.get("feedbacks", ()):
-            f = _mk_method(fb["name"], f"{cname}.fb.{fb['name']}", (fb["hint"], fb.get("nohint_kind", "float")))
+            f = _mk_method(fb["name"], f"{cname}.fb.{fb['name']}", (fb["hint"], fb.get("nohint_kind", "float"), fb.get("same_object", False)))
             h = hint_obj(fb["hint"], fb.get("variant", 0))
             if h is not None:
                 f.__annotations__ = {"return": h}
@@ -146,7 +159,7 @@ def build_robot(spec):
             body["control_loop_wait_time"] = spec["period_us"] / 1e6
             body["use_teleop_in_autonomous"] = spec["teleop_in_auto"]
             for fb in spec.get("robot_feedbacks", ()):
-                f = _mk_method(fb["name"], f"R.fb.{fb['name']}", (fb["hint"], fb.get("nohint_kind", "float")))
+                f = _mk_method(fb["name"], f"R.fb.{fb['name']}", (fb["hint"], fb.get("nohint_kind", "float"), fb.get("same_object", False)))
                 h = hint_obj(fb["hint"], fb.get("variant", 0))
                 if h is not None:
                     f.__annotations__ = {"return": h}
